@@ -19,7 +19,6 @@ git clean -fdq; git checkout -q -- .
 git apply $OUT/patch.diff
 for id in "$@"; do
   echo "== ./check $id quick against the broken tree"
-  (cd /verif && VERIF_REPO=$WT ./check $id quick 2>&1 | grep -v "^KNOWN" | cut -c1-330 | head -8; )
+  (cd /verif && VERIF_SCRATCH_OUT=$D/scr VERIF_REPO=$WT ./check $id quick 2>&1 | grep -v "^KNOWN" | cut -c1-330 | head -8; )
 done
 git checkout -q -- . ; git clean -fdq
-rm -f /verif/replays/C*
